@@ -122,6 +122,254 @@ func instrBodyLeaves(s *ast.IfStmt) bool {
 	return false
 }
 
+// ---------------------------------------------------------------- methods that take locks (composite.go)
+//
+// A method that takes a lock of the receiver touches the receiver's state inside its locked sections; whatever it
+// touches with NO lock held (an atomic flag, a retry `return s.Next()`, and — if somebody moves a read out of the
+// section — a plain field) is an action of its own that other callers can run in between. The lock state is tracked
+// statement by statement (`x.Lock()/RLock()` … `x.Unlock()/RUnlock()` on a field of the receiver, `defer x.Unlock()`
+// holds to the end; a branch that ends in return / panic does not flow on; where two branches that flow on disagree
+// the state is "not held") and a scheduling point `verifhook.At("<type>.<method>#<k>|<accesses>")` is put in front of
+// every statement that touches the receiver (field read / write, atomic operation, receiver method call) with no lock
+// held. On the unchanged composite.go that is: `started.Store` at the top of Next, `started.Load` in Left, the three
+// retries — and no plain field.
+
+func instrIsLockType(ty string) bool {
+	ty = strings.TrimPrefix(ty, "*")
+	return ty == "sync.RWMutex" || ty == "sync.Mutex"
+}
+
+// instrLockCall: st is `recv.<lock field>.<Lock|RLock|Unlock|RUnlock>()` → the method name
+func instrLockCall(recv string, fields map[string]string, e ast.Expr) string {
+	c, ok := e.(*ast.CallExpr)
+	if !ok {
+		return ""
+	}
+	se, ok := c.Fun.(*ast.SelectorExpr)
+	if !ok {
+		return ""
+	}
+	switch se.Sel.Name {
+	case "Lock", "RLock", "Unlock", "RUnlock":
+	default:
+		return ""
+	}
+	in, ok := se.X.(*ast.SelectorExpr)
+	if !ok {
+		return ""
+	}
+	if id, ok := in.X.(*ast.Ident); !ok || id.Name != recv || !instrIsLockType(fields[in.Sel.Name]) {
+		return ""
+	}
+	return se.Sel.Name
+}
+
+// instrRecvTouches: what the nodes touch of the receiver (nested blocks and function literals excluded)
+func instrRecvTouches(recv string, fields map[string]string, nodes []ast.Node) []string {
+	var out []string
+	seen := map[string]bool{}
+	add := func(a string) {
+		if !seen[a] {
+			seen[a] = true
+			out = append(out, a)
+		}
+	}
+	for _, n := range nodes {
+		if n == nil {
+			continue
+		}
+		ast.Inspect(n, func(x ast.Node) bool {
+			switch v := x.(type) {
+			case *ast.FuncLit, *ast.BlockStmt:
+				return false
+			case *ast.CallExpr:
+				if se, ok := v.Fun.(*ast.SelectorExpr); ok {
+					if id, ok := se.X.(*ast.Ident); ok && id.Name == recv {
+						if _, isField := fields[se.Sel.Name]; !isField {
+							add(se.Sel.Name + "()")
+							for _, a := range v.Args {
+								out = append(out, instrRecvTouches(recv, fields, []ast.Node{a})...)
+							}
+							return false
+						}
+					}
+					if in, ok := se.X.(*ast.SelectorExpr); ok {
+						if id, ok := in.X.(*ast.Ident); ok && id.Name == recv && instrSyncType(fields[in.Sel.Name]) {
+							add(in.Sel.Name + "." + se.Sel.Name)
+							return false
+						}
+					}
+				}
+			case *ast.SelectorExpr:
+				if id, ok := v.X.(*ast.Ident); ok && id.Name == recv {
+					if !instrIsLockType(fields[v.Sel.Name]) {
+						add(v.Sel.Name)
+					}
+					return false
+				}
+			}
+			return true
+		})
+	}
+	return out
+}
+
+func instrTerminates(st ast.Stmt) bool {
+	switch s := st.(type) {
+	case *ast.ReturnStmt:
+		return true
+	case *ast.ExprStmt:
+		if c, ok := s.X.(*ast.CallExpr); ok {
+			if id, ok := c.Fun.(*ast.Ident); ok && id.Name == "panic" {
+				return true
+			}
+		}
+	}
+	return false
+}
+
+func instrLockedMethod(fset *token.FileSet, recv, rt string, fields map[string]string, fd *ast.FuncDecl, ins *[]instrIns, points map[string]int) {
+	k := 0
+	deferred := false
+	point := func(st ast.Stmt, acc []string) {
+		label := fmt.Sprintf("%s.%s#%d|%s", rt, fd.Name.Name, k, strings.Join(acc, ","))
+		*ins = append(*ins, instrIns{fset.Position(st.Pos()).Offset, fmt.Sprintf("verifhook.At(%q); ", label)})
+		points[rt+"."+fd.Name.Name]++
+	}
+	// ifOwn: the conditions of an if / else-if chain (a point cannot be put in front of an `else if`)
+	var ifOwn func(s *ast.IfStmt) []ast.Node
+	ifOwn = func(s *ast.IfStmt) []ast.Node {
+		var o []ast.Node
+		if s.Init != nil {
+			o = append(o, s.Init)
+		}
+		o = append(o, s.Cond)
+		if e, ok := s.Else.(*ast.IfStmt); ok {
+			o = append(o, ifOwn(e)...)
+		}
+		return o
+	}
+	var walk func(list []ast.Stmt, held bool) (bool, bool) // → held afterwards, terminated
+	var ifWalk func(s *ast.IfStmt, held bool) (bool, bool)
+	ifWalk = func(s *ast.IfStmt, held bool) (bool, bool) {
+		h1, t1 := walk(s.Body.List, held)
+		h2, t2 := held, false
+		switch e := s.Else.(type) {
+		case *ast.BlockStmt:
+			h2, t2 = walk(e.List, held)
+		case *ast.IfStmt:
+			h2, t2 = ifWalk(e, held)
+		}
+		switch {
+		case t1 && t2:
+			return held, true
+		case t1:
+			return h2, false
+		case t2:
+			return h1, false
+		}
+		return h1 && h2, false
+	}
+	walk = func(list []ast.Stmt, held bool) (bool, bool) {
+		for _, st := range list {
+			if _, isDecl := st.(*ast.DeclStmt); isDecl {
+				continue
+			}
+			k++
+			if es, ok := st.(*ast.ExprStmt); ok {
+				switch instrLockCall(recv, fields, es.X) {
+				case "Lock", "RLock":
+					held = true
+					continue
+				case "Unlock", "RUnlock":
+					if !deferred {
+						held = false
+					}
+					continue
+				}
+			}
+			if ds, ok := st.(*ast.DeferStmt); ok {
+				if m := instrLockCall(recv, fields, ds.Call); m == "Unlock" || m == "RUnlock" {
+					deferred = true
+					continue
+				}
+			}
+			var own []ast.Node
+			switch s := st.(type) {
+			case *ast.IfStmt:
+				own = ifOwn(s)
+			case *ast.ForStmt:
+				own = []ast.Node{s.Init, s.Cond, s.Post}
+			case *ast.RangeStmt:
+				own = []ast.Node{s.X}
+			case *ast.SwitchStmt:
+				own = []ast.Node{s.Init, s.Tag}
+			case *ast.TypeSwitchStmt:
+				own = []ast.Node{s.Init, s.Assign}
+			case *ast.SelectStmt, *ast.BlockStmt, *ast.LabeledStmt:
+			default:
+				own = []ast.Node{st}
+			}
+			if !held {
+				if acc := instrRecvTouches(recv, fields, own); len(acc) > 0 {
+					point(st, acc)
+				}
+			}
+			if instrTerminates(st) {
+				return held, true
+			}
+			bodies := func(bs [][]ast.Stmt) {
+				all := held
+				for _, b := range bs {
+					h, t := walk(b, held)
+					if !t {
+						all = all && h
+					}
+				}
+				held = all
+			}
+			switch s := st.(type) {
+			case *ast.BlockStmt:
+				h, t := walk(s.List, held)
+				if t {
+					return h, true
+				}
+				held = h
+			case *ast.IfStmt:
+				h, t := ifWalk(s, held)
+				if t {
+					return h, true
+				}
+				held = h
+			case *ast.ForStmt:
+				bodies([][]ast.Stmt{s.Body.List})
+			case *ast.RangeStmt:
+				bodies([][]ast.Stmt{s.Body.List})
+			case *ast.SwitchStmt:
+				var bs [][]ast.Stmt
+				for _, c := range s.Body.List {
+					bs = append(bs, c.(*ast.CaseClause).Body)
+				}
+				bodies(bs)
+			case *ast.TypeSwitchStmt:
+				var bs [][]ast.Stmt
+				for _, c := range s.Body.List {
+					bs = append(bs, c.(*ast.CaseClause).Body)
+				}
+				bodies(bs)
+			case *ast.SelectStmt:
+				var bs [][]ast.Stmt
+				for _, c := range s.Body.List {
+					bs = append(bs, c.(*ast.CommClause).Body)
+				}
+				bodies(bs)
+			}
+		}
+		return held, false
+	}
+	walk(fd.Body.List, false)
+}
+
 type instrIns struct {
 	off  int
 	text string
@@ -229,10 +477,7 @@ func instrumentFile(path string, points map[string]int) (string, error) {
 		if !ok || fd.Recv == nil || fd.Body == nil || len(fd.Recv.List) != 1 || len(fd.Recv.List[0].Names) != 1 {
 			continue
 		}
-		if fd.Name.Name != "Next" && fd.Name.Name != "Left" {
-			continue
-		}
-		if instrHasLock(fd.Body) {
+		if fd.Name.Name != "Next" && fd.Name.Name != "Left" && !instrHasLock(fd.Body) {
 			continue
 		}
 		recv := fd.Recv.List[0].Names[0].Name
@@ -244,6 +489,10 @@ func instrumentFile(path string, points map[string]int) (string, error) {
 			}
 		case *ast.Ident:
 			rt = t.Name
+		}
+		if instrHasLock(fd.Body) {
+			instrLockedMethod(fset, recv, rt, named[rt], fd, &ins, points)
+			continue
 		}
 		k := 0
 		// Consecutive statements that only READ distinct locations of the shared state (`x.Load`, `IsStarted()`) form one
